@@ -1103,3 +1103,36 @@ Proof.
     + destruct (r_req_nodes r <? 0) eqn:E; [reflexivity|]. apply Z.ltb_ge in E.
       simpl. apply Z.eqb_eq. apply A2. assumption.
 Qed.
+
+(* ================= several initialisations in one process are independent *)
+Theorem seq_independent l : forall pe,
+  run_seq pe l =
+  map (fun ps => rm_construct (with_smt_env (fst ps) (st_cfg (snd ps))) (st_env (snd ps)) (st_acc (snd ps)))
+      (combine (given_envs pe l) (map snd l)).
+Proof.
+  induction l as [|[u s] t IH]; intro pe; simpl; [reflexivity|].
+  rewrite IH. reflexivity.
+Qed.
+
+Lemma init_in_env pe s : snd (init_in pe s) = pe.
+Proof. reflexivity. Qed.
+
+Lemma last_cons_default {A} (l : list A) : forall x d1 d2, last (x :: l) d1 = last (x :: l) d2.
+Proof. induction l as [|y l IH]; intros x d1 d2; [reflexivity|]. apply (IH y). Qed.
+
+Lemma last_cons_self {A} (x : A) l d : last (x :: l) d = last l x.
+Proof. destruct l as [|y l]; [reflexivity|]. change (last (x :: y :: l) d) with (last (y :: l) d). apply last_cons_default. Qed.
+
+(* in particular: what came before does not matter *)
+Theorem seq_prefix_irrelevant l1 l2 pe1 pe2 u s :
+  apply_user u (last (given_envs pe1 l1) pe1) = apply_user u (last (given_envs pe2 l2) pe2) ->
+  nth (List.length l1) (run_seq pe1 (l1 ++ [(u, s)])) (inl OtherError) =
+  nth (List.length l2) (run_seq pe2 (l2 ++ [(u, s)])) (inl OtherError).
+Proof.
+  assert (H : forall l pe, nth (List.length l) (run_seq pe (l ++ [(u, s)])) (inl OtherError)
+                           = fst (init_in (apply_user u (last (given_envs pe l) pe)) s)).
+  { induction l as [|[u0 s0] t IH]; intro pe; [reflexivity|].
+    cbn [List.length app run_seq nth]. rewrite init_in_env, IH.
+    cbn [given_envs]. rewrite last_cons_self. reflexivity. }
+  intro E. rewrite !H, E. reflexivity.
+Qed.
